@@ -20,8 +20,8 @@ for n in names:
     stmt = m.group(1).rstrip()
     assert stmt.endswith("."), stmt
     short = mod.split(".")[-1]
-    body = "(** %s — %s%s *)\n%s\nFrom IV Require Import %s.\nTheorem %s%s\nProof. exact %s.%s. Qed.\nPrint Assumptions %s.\n" % (
-        pid, n, (": " + doc) if doc else "", "\n".join(imports), src[:-2].replace("/", "."), n, stmt, short, n, n)
+    body = "(** %s — %s%s *)\n%s\nFrom IV Require Import %s.\nTheorem %s%s\nProof. first [exact %s.%s | intros; apply %s.%s]. Qed.\nPrint Assumptions %s.\n" % (
+        pid, n, (": " + doc) if doc else "", "\n".join(imports), src[:-2].replace("/", "."), n, stmt, short, n, short, n, n)
     with open(os.path.join(outdir, n + ".v"), "w") as f:
         f.write(body)
     print("wrote", pid, n)
